@@ -869,6 +869,24 @@ def sum_int_from(ex, st, func, args, dest_ty):
     t = args[0].t if wd == ws else (z3.SignExt(wd - ws, args[0].t) if ss else z3.ZeroExt(wd - ws, args[0].t))
     return [(st, BV(t, sd))]
 
+def sum_ascii_class(ex, st, func, args, dest_ty):
+    """u8 / char classification predicates of core (is_ascii_digit, is_ascii_control, ...): their definitions"""
+    m = re.search(r'(?:u8|char)>?::is_(ascii(?:_\w+)?)$', func)
+    if not m: return None
+    v = args[0]
+    while isinstance(v, RefV): v = st.heap[v.oid][v.key]
+    if not isinstance(v, BV): return None
+    x = v.t; w = x.size(); K = lambda n: z3.BitVecVal(n, w)
+    def rng(a, b): return z3.And(z3.UGE(x, K(a)), z3.ULE(x, K(b)))
+    cls = m.group(1)
+    table = {'ascii': z3.ULE(x, K(0x7f)), 'ascii_digit': rng(0x30, 0x39), 'ascii_control': z3.Or(z3.ULE(x, K(0x1f)), x == K(0x7f)),
+             'ascii_whitespace': z3.Or(x == K(0x20), x == K(0x09), x == K(0x0a), x == K(0x0c), x == K(0x0d)),
+             'ascii_hexdigit': z3.Or(rng(0x30, 0x39), rng(0x41, 0x46), rng(0x61, 0x66)), 'ascii_alphabetic': z3.Or(rng(0x41, 0x5a), rng(0x61, 0x7a)),
+             'ascii_alphanumeric': z3.Or(rng(0x30, 0x39), rng(0x41, 0x5a), rng(0x61, 0x7a)), 'ascii_uppercase': rng(0x41, 0x5a), 'ascii_lowercase': rng(0x61, 0x7a),
+             'ascii_punctuation': z3.Or(rng(0x21, 0x2f), rng(0x3a, 0x40), rng(0x5b, 0x60), rng(0x7b, 0x7e)), 'ascii_graphic': rng(0x21, 0x7e)}
+    if cls not in table: return None
+    return [(st, BoolV(table[cls]))]
+
 def sum_box_uninit(ex, st, func, args, dest_ty):
     """Box::<[T; N]>::new_uninit(): a fresh box object (the first half of `vec![..]`)"""
     return [(st, ObjV(st.new_obj(st.fresh_name('box'), dest_ty or 'Box')))]
@@ -888,6 +906,7 @@ def sum_box_into_vec(ex, st, func, args, dest_ty):
     return [(st, seqobj(st, 'Vec', items))]
 
 GENERIC = [
+    (r'(^|::)(u8|char)::is_ascii(_\w+)?$|<impl (u8|char)>::is_ascii(_\w+)?$', sum_ascii_class),
     (r'^Box::<\[.*\]>::new_uninit$', sum_box_uninit), (r'box_assume_init_into_vec_unsafe::<', sum_box_into_vec),
     (r'^<\w+ as From<\w+>>::from$|^<\w+ as Into<\w+>>::into$', sum_int_from),
     (r'^<\w+ as Ord>::(min|max)$|^(std|core)::cmp::(min|max)::<\w+>$', sum_int_minmax),
